@@ -401,6 +401,9 @@ func readString(buf *bytes.Buffer) (string, error) { // nolint:interfacer
 	if strlen == -1 {
 		return "", nil
 	}
+	if strlen < 0 {
+		return "", errors.New("invalid string length")
+	}
 
 	strbytes := make([]byte, strlen)
 	n, err := buf.Read(strbytes)
